@@ -184,6 +184,22 @@ Example C03_pathname_example :
   r_norm (s_r (run true (init_sst (repr_of u) false) (flat_map cops [PEmpty; PPush (lit "x")] ++ [OCommitPath]))) = lit "non-spec:/.//x".
 Proof. cbv zeta. repeat split; try discriminate; vm_compute; reflexivity. Qed.
 
+(* potentially_strip_trailing_spaces_from_an_opaque_path: the string loses the trailing spaces of the path, every
+   offset from PATH on becomes the new length; at record level hash("") on a URL with an opaque path and no query *)
+Theorem C03_strip_pieces : forall ps n f c s A a,
+  PW ps n -> (9 <= n)%nat -> s_r s = conc ps n f c ->
+  N.testbit f 11 = true -> N.testbit f 10 = false -> N.testbit f 9 = false ->
+  concat (firstn 8 ps) = A ++ [a] -> (a =? 32) = false ->
+  nth 9 ps [] = [] -> nth 10 ps [] = [] ->
+  s_r (do_strip s) = conc (setp ps P_PATH (strip_trailing_spaces (nth 8 ps []))) n f c.
+Proof. exact strip_conc. Qed.
+
+Theorem C03_hash_clear_opaque_repr : forall u file P,
+  scheme u <> [] -> uhost u = None -> path u = POpaque P -> query u = None ->
+  s_r (run true (init_sst (repr_of u) file) [OClearPart P_FRAGMENT; OStrip]) =
+  repr_of (potentially_strip (set_fragment u None)).
+Proof. exact hash_clear_opaque_repr. Qed.
+
 Theorem C03_protocol_setter_repr : forall u file sch, scheme u <> [] -> sch <> [] ->
   let s1 := run true (init_sst (repr_of u) file) [OStartScheme; OAppend sch; OSaveScheme] in
   s_r s1 = repr_of (set_scheme u sch) /\ s_file s1 = is_file_str sch.
@@ -233,6 +249,8 @@ Print Assumptions C03_port_clear_repr.
 Print Assumptions C03_pathname_pieces.
 Print Assumptions C03_pathname_setter_repr.
 Print Assumptions C03_pathname_example.
+Print Assumptions C03_strip_pieces.
+Print Assumptions C03_hash_clear_opaque_repr.
 Print Assumptions C03_protocol_setter_repr.
 Print Assumptions C03_record_example.
 Print Assumptions C03_pieces_example.
